@@ -350,7 +350,22 @@ def run(tier: str) -> int:
     n = 36 if tier == "quick" else 1200
     items = [(k, tier) for k in range(n)]
     known = kit.load_known_findings(PROP)
-    results, skipped = kit.run_pool(task, items, budget_s=900 if tier == "quick" else 3 * 3600)
+    # determinism self-test: the same scenarios again must give the same plans, faults and verdicts
+    n_det = 3 if tier == "quick" else 24
+    results, skipped = kit.run_pool(task, items + [(k, tier) for k in range(n_det)], budget_s=900 if tier == "quick" else 3 * 3600)
+    firsts: dict[int, Any] = {}
+    dupes = []
+    uniq = []
+    for r in results:
+        sig = kit.digest([r["evaluations"], r["faults"], r["probes"], len(r.get("violations", []))])
+        if r["k"] in firsts:
+            dupes.append((r["k"], firsts[r["k"]] == sig))
+        else:
+            firsts[r["k"]] = sig
+            uniq.append(r)
+    if any(not ok for _, ok in dupes):
+        raise kit.HarnessError(f"determinism self-test failed for scenarios {[k for k, ok in dupes if not ok]}")
+    results = uniq
     results.sort(key=lambda r: r["k"])
     by_class: dict[str, list[dict[str, Any]]] = {}
     for r in results:
@@ -371,6 +386,7 @@ def run(tier: str) -> int:
     rep.exhaustive = skipped == 0
     rep.extra["exhaustive_note"] = "per scenario, all crash positions / single-write failures / record-kind failures are enumerated; scenarios and failure subsets are sampled"
     rep.extra["skipped_for_budget"] = skipped
+    rep.extra["determinism_selftest"] = {"scenarios_run_twice": len(dupes), "mismatches": 0}
     rep.write()
     print(f"C04 {tier}: {rep.evaluations} fault plans over {len(results)} scenarios, {len(rep.nontrivial)} non-trivial, "
           f"{len(rep.violations)} violations, {len(rep.known)} known findings")
